@@ -22,6 +22,7 @@ import (
 	"errors"
 	"fmt"
 	"io"
+	"log"
 	"os"
 	"path/filepath"
 	"strings"
@@ -620,9 +621,10 @@ func (e *env) serverTier(cases []*certCase, runsPer int) {
 
 func runC09(c *Ctx) {
 	im := NewImpl("C09", c.Seed, c.Tier)
-	im.Rule = "certificates from crypto/x509 over issuer{RootCAs CA, ClientCAs CA, unrelated CA, self-signed, via intermediate presented/missing} x window{valid, expired, not yet valid} x EKU{server, client, both, neither, absent} x names{expected, other, several, none, DNS-only, DNS-other, several-without, near-miss, bad-UTF8, blank-ids = otherNames \"\" and \" \", case-fold = every spelling differing from the expected ID only by ASCII case or Unicode simple case folding k/U+212A s/U+017F, both directions} (node IDs and host names random per certificate), plus malformed presentations (no certificate, garbage, truncated, garbage second element); each shown to ReceptorVerifyFunc for both verify types x {receptor, DNS, DNS-empty} x rotating pin lists {none, sha256, sha512, sha224, sha384, miss, wrong length, match-then-wrong, wrong-then-match, miss-then-match, empty pin, match-then-miss} plus a free run (invalid types, other expected names); TIME: verifiers (ReceptorVerifyFunc closures, GetClientTLSConfig receptor-mode config, PrepareTLSServerConfig config) are built first for certificates whose window ends / begins ~6 s later, used at once and used again after the boundary, every case carrying the time of the call; a sample goes through crypto/tls handshakes (client side via GetClientTLSConfig, server side via PrepareTLSServerConfig) and through DialContext/ListenAndAdvertise on a real mesh; non-trivial = a certificate was presented and parses; distinct by certificate parameters + run"
+	im.Rule = "certificates from crypto/x509 over issuer{RootCAs CA, ClientCAs CA, unrelated CA, self-signed, via intermediate presented/missing} x window{valid, expired, not yet valid} x EKU{server, client, both, neither, absent} x names{expected, other, several, none, DNS-only, DNS-other, several-without, near-miss, bad-UTF8, blank-ids = otherNames \"\" and \" \", case-fold = every spelling differing from the expected ID only by ASCII case or Unicode simple case folding k/U+212A s/U+017F, both directions} (node IDs and host names random per certificate), plus malformed presentations (no certificate, garbage, truncated, garbage second element); each shown to ReceptorVerifyFunc for both verify types x {receptor, DNS, DNS-empty} x rotating pin lists {none, sha256, sha512, sha224, sha384, miss, wrong length, match-then-wrong, wrong-then-match, miss-then-match, empty pin, match-then-miss} plus a free run (invalid types, other expected names); TIME: verifiers (ReceptorVerifyFunc closures, GetClientTLSConfig receptor-mode config, PrepareTLSServerConfig config) are built first for certificates whose window ends / begins ~6 s later, used at once and used again after the boundary, every case carrying the time of the call; CONFIG: profile lookups by name, the default client profile, fingerprint option spellings/sizes/mutations through PrepareTLS*Config; CONSUMERS: YAML documents (tls-server, tls-client, tcp-listener/peer, ws-listener/peer, control-service, tcp-server, tcp-client) parsed by the receptor command's cmdline library and run on real nodes over loopback sockets, each consumer with the accept/refuse matrix of certificates; a sample goes through crypto/tls handshakes (client side via GetClientTLSConfig, server side via PrepareTLSServerConfig) and through DialContext/ListenAndAdvertise on a real mesh; non-trivial = a certificate was presented and parses; distinct by certificate parameters + run"
 	cf := &CaseFile{Dir: c.Out, Prop: "C09", Imports: []string{"Model.Tls"}, CaseType: "tls_case", CheckFn: "tls_check", PerShard: 60}
 	QuietLogs()
+	log.SetOutput(io.Discard) // net/http reports every refused TLS handshake of the websocket listeners
 	lg := logger.NewReceptorLogger("")
 	lg.SetOutput(io.Discard)
 	tmp, err := os.MkdirTemp("", "vh-c09-")
@@ -683,7 +685,7 @@ func runC09(c *Ctx) {
 	var sample []*certCase
 	for i, cc := range cases {
 		good := cc.TimeOK && cc.Kind == "product"
-		if c.Thorough() || cc.Kind == "no-cert" || (good && i%3 == 0) || i%11 == 0 || (good && cc.P.Names == namCaseFold && cc.P.Issuer <= issClient) {
+		if c.Thorough() || cc.Kind == "no-cert" || (good && i%4 == 0) || i%13 == 0 || (good && cc.P.Names == namCaseFold && cc.P.Issuer <= issClient) {
 			sample = append(sample, cc)
 		}
 	}
@@ -695,6 +697,11 @@ func runC09(c *Ctx) {
 	e.clientTier(sample, hsRuns)
 	e.serverTier(sample, hsRuns)
 	im.Extra["handshake_seconds"] = time.Since(t2).Seconds()
+
+	e.configTier()
+	t4 := time.Now()
+	e.consumerTier()
+	im.Extra["consumer_seconds"] = time.Since(t4).Seconds()
 
 	t3 := time.Now()
 	e.meshTier()
